@@ -302,6 +302,126 @@ def rule_rebinding(chk, tree):
                func='SPHEvaluator.update', detail_bad='update() does not refresh the neighbour structure', detail_ok='update_domain (optional) then update')
 
 
+def rule_order1(chk, tree):
+    """'order1' reproduces every linear field: with p_j = p_i - g . x_ij the contribution of each neighbour to the right-hand side equals its contribution to the moment
+    matrix applied to (p_i, g) - an algebraic identity per pair, hence M (p_i, g) = b after summation whatever the particle positions; plus the storage layout the solve
+    relies on and the zeroing of everything that is accumulated"""
+    from verif_static import symb as S
+    pre = M.find_class(tree, 'SPHFirstOrderApproximationPreStep')
+    fo = M.find_class(tree, 'SPHFirstOrderApproximation')
+    lp_m, lp_b = M.methods(pre)['loop'], M.methods(fo)['loop']
+    ctx = S.Ctx(seconds=20)
+
+    def increments(fn, arr, stride):
+        ev = S.Evaluator(ctx, ast.FunctionDef(name='loop', args=fn.args, body=M.docstring_stripped(fn.body), decorator_list=[]))
+        ev.run()
+        out = {}
+        for k, v in ev.env.items():
+            if k.startswith(arr + '['):
+                # index = stride*d_idx + offset
+                idx = ast.parse(k[len(arr) + 1:-1], mode='eval').body
+                ip = ev.ev(idx) if not isinstance(idx, ast.Constant) else S.Poly.const(idx.value)
+                off = ctx.simplify(ip - ctx.var('d_idx') * S.Poly.const(stride))
+                if not off.is_const():
+                    raise S.Unsupported('index %s of %s is not %d*d_idx + constant' % (k, arr, stride))
+                out[int(off.const_value())] = ctx.simplify(v - ctx.var(k))
+        return out
+    try:
+        dM = increments(lp_m, 'd_moment', 16)
+        db = increments(lp_b, 'd_p_sph', 4)
+        chk.decide(sorted(dM) == list(range(16)) and sorted(db) == list(range(4)), 'order1-linear-reproduction', 'all-entries-accumulated', node=lp_m, file=INT,
+                   func='SPHFirstOrderApproximationPreStep.loop', detail_bad='moment entries %s / right-hand-side entries %s accumulated; expected 0..15 and 0..3' % (sorted(dM), sorted(db)),
+                   detail_ok='16 moment entries at 16*d_idx + 4r + c, 4 right-hand-side entries at 4*d_idx + r')
+        u = [ctx.var('P_I'), ctx.var('G0'), ctx.var('G1'), ctx.var('G2')]
+        pj = u[0] - ctx.mul(u[1], ctx.var('XIJ[0]')) - ctx.mul(u[2], ctx.var('XIJ[1]')) - ctx.mul(u[3], ctx.var('XIJ[2]'))
+
+        def lin(name):
+            return pj if name == 's_temp_prop[s_idx]' else None
+        for r in range(4):
+            row = S.Poly()
+            for c in range(4):
+                row = row + ctx.mul(dM.get(4 * r + c, S.Poly()), u[c])
+            rhs = ctx.rename(db.get(r, S.Poly()), lin)
+            ok = ctx.prove_zero(row - rhs)[0]
+            chk.decide(ok, 'order1-linear-reproduction', 'row-%d' % r, node=lp_b, file=INT, func='SPHFirstOrderApproximation.loop',
+                       detail_bad='for a linear field p_j = p_i - g.x_ij neighbour j adds %s to row %d of the right-hand side but (its moment-matrix row) . (p_i, g) is %s: M (p_i, g) != b, '
+                                  'so a linear field is not reproduced' % (rhs, r, row), detail_ok='sum_c dM[%d][c] u_c == db[%d] identically' % (r, r))
+    except (S.Unsupported, S.Budget) as e:
+        chk.undecided('order1-linear-reproduction', 'per-pair-identity', node=lp_m, file=INT, func='SPHFirstOrderApproximationPreStep.loop', detail=str(e))
+    # everything that is accumulated is zeroed first, for every entry
+    for cls, arrs in ((pre, (('d_moment', 16),)), (fo, (('d_p_sph', 4), ('d_prop', 4)))):
+        ini = M.methods(cls)['initialize']
+        for arr, n in arrs:
+            zero = set()
+            for a in ast.walk(ini):
+                if isinstance(a, ast.Assign) and isinstance(a.targets[0], ast.Subscript) and compact(a.targets[0].value) == arr and isinstance(a.value, ast.Constant) and a.value.value == 0:
+                    loops = {}
+                    cur = a
+                    M.set_parents(ini)
+                    while getattr(cur, 'parent', None) is not None and cur.parent is not ini:
+                        cur = cur.parent
+                        if isinstance(cur, ast.For) and isinstance(cur.target, ast.Name) and isinstance(cur.iter, ast.Call) and compact(cur.iter.func) == 'range' and \
+                                len(cur.iter.args) == 1 and isinstance(cur.iter.args[0], ast.Constant):
+                            loops[cur.target.id] = cur.iter.args[0].value
+                    import itertools
+                    names = sorted(loops)
+                    for vals in itertools.product(*[range(loops[k]) for k in names]):
+                        env = dict(zip(names, vals))
+                        try:
+                            pidx = from_env_index(a.targets[0].slice, env, n)
+                        except ValueError:
+                            pidx = None
+                        if pidx is not None:
+                            zero.add(pidx)
+            chk.decide(zero == set(range(n)), 'order1-linear-reproduction', 'zeroed:%s' % arr, node=ini, file=INT, func=cls.name + '.initialize',
+                       detail_bad='initialize zeroes entries %s of the %d-vector %s per particle; entries %s keep their value from the previous evaluation and are accumulated into / returned again '
+                                  '(a second interpolate() on the same data gives a different answer)' % (sorted(zero), n, arr, sorted(set(range(n)) - zero)),
+                       detail_ok='all %d entries reset' % n)
+    # the solve uses the layout the accumulation wrote
+    pl = M.methods(fo)['post_loop']
+    src = dict((compact(a.targets[0]), a.value) for a in ast.walk(pl) if isinstance(a, ast.Assign) and isinstance(a.targets[0], ast.Subscript))
+    aug = [c for c in M.calls(pl) if M.call_name(c) == 'augmented_matrix']
+    gj = [c for c in M.calls(pl) if M.call_name(c) == 'gj_solve']
+    nd = [a for a in ast.walk(pl) if isinstance(a, ast.Assign) and compact(a.targets[0]) == 'n']
+    ok = len(aug) == 1 and len(gj) == 1 and [compact(x) for x in aug[0].args] == ['a_mat', 'b', 'n', '1', '4', 'aug_mat'] and [compact(x) for x in gj[0].args] == ['aug_mat', 'n', '1', 'res'] and \
+        aug[0].lineno < gj[0].lineno and len(nd) == 1 and same(nd[0].value, 'self.dim+1')
+    ok = ok and 'a_mat[i]' in src and same(src['a_mat[i]'], 'd_moment[16*d_idx+i]') or ok and 'a_mat[i]' in src and same(resolve_names(pl, src['a_mat[i]']), 'd_moment[16*d_idx+i]')
+    okb = 'b[i]' in src and same(resolve_names(pl, src['b[i]']), 'd_p_sph[4*d_idx+i]')
+    outk = [k for k in src if k.startswith('d_prop[')]
+    oko = len(outk) == 1 and same(resolve_names(pl, ast.parse(outk[0], mode='eval').body), 'd_prop[4*d_idx+i]') and compact(src[outk[0]]) == 'res[i]'
+    chk.decide(bool(ok and okb and oko), 'order1-linear-reproduction', 'solve-uses-the-accumulated-layout', node=pl, file=INT, func='SPHFirstOrderApproximation.post_loop',
+               detail_bad='post_loop must copy the 4x4 row-major moment block and the 4-vector of this particle, solve the leading (dim+1) system with augmented_matrix(a, b, n, 1, 4, aug) / '
+                          'gj_solve(aug, n, 1, res) and store res into d_prop[4*d_idx + i]', detail_ok='copy, augmented_matrix(.., n, 1, 4, ..), gj_solve(.., n, 1, res), store')
+
+
+def resolve_names(fn, e):
+    """local int names (i16 = 16*d_idx) substituted in an expression"""
+    defs = dict((compact(a.targets[0]), a.value) for a in ast.walk(fn) if isinstance(a, ast.Assign) and isinstance(a.targets[0], ast.Name) and
+                isinstance(a.value, ast.BinOp))
+
+    class Sub(ast.NodeTransformer):
+        def visit_Name(self, n):
+            return defs[n.id] if n.id in defs and n.id not in ('i', 'n') else n
+    import copy
+    return Sub().visit(copy.deepcopy(e))
+
+
+def from_env_index(idx, env, n):
+    """offset of `stride*d_idx + f(loop vars)` within the particle's block, for given loop values"""
+    import copy
+
+    class Sub(ast.NodeTransformer):
+        def visit_Name(self, x):
+            if x.id in env:
+                return ast.Constant(env[x.id])
+            if x.id == 'd_idx':
+                return ast.Constant(0)
+            raise ValueError(x.id)
+    e = Sub().visit(copy.deepcopy(idx))
+    v = eval(compile(ast.fix_missing_locations(ast.Expression(e)), '<idx>', 'eval'), {'__builtins__': {}}, {})
+    return v if 0 <= v < n else None
+
+
 def main(chk):
     chk.explanation = ('Normalised methods: symbolic (polynomial normal form with reciprocal atoms) agreement between the weight multiplying the source '
                        'value and the increment of the normaliser, division under a positivity guard, zero initialisation; un-normalised sums match the '
@@ -313,8 +433,10 @@ def main(chk):
     rule_sources(chk, tree)
     rule_method_table(chk, tree)
     rule_rebinding(chk, tree)
+    rule_order1(chk, tree)
     chk.note("'splash' weights with WI (destination h) while 'splash_norm' uses WJ (source h); no formula is documented in the repository to compare with - noted, not judged")
-    chk.assume("reproduction of linear fields by 'order1' (moment matrix conditioning) and min/max bounds are numeric facts; not decided")
+    chk.assume("'order1': the per-pair identity gives M (p_i, grad p) = b exactly for linear fields; that the (dim+1) leading block is well conditioned, and XIJ[k] = 0 for k >= dim, are assumed; "
+               "min/max bounds of Shepard values are numeric facts, not decided")
 
 
 if __name__ == '__main__':
